@@ -30,6 +30,14 @@ CLAIMED = {
   text="Deductive proof over the real CertificateAuth._extract_path/_find_matching_rule/process_request and ServerConfig.get_certificate_auth_config, for rule lists of any length, any URL and any fingerprint or none: the path used for the lookup is canon(url) (percent-decoded, dot-segment- and slash-normalised location); the rule returned is the FIRST whose canonical prefix covers it on a segment boundary (inductive loop invariant); allow <=> no rule covers or the first covering rule admits (required certificate present, fingerprint in the allow-list when one is given, so an empty list admits nobody); refusal is one '60' line without a certificate and one '61' line otherwise; the configuration layer produces one rule per TOML table, field by field, with an allow-list exactly when the key is present.",
   note="Assumed: E7 urlsplit/unquote and E8 normpath as uninterpreted functions with 'normpath(/ ++ rel) is the location pathlib resolves to in a symlink-free tree' (the quantifier of C05); that the static handler serves root/unquote(path).lstrip('/') is decided under C02; fingerprint provenance under C04. The bounded replay bank (real files, real StaticFileHandler) ties canon to what is actually served.",
   technique="contract-based deductive verification: pyvc VCs with quantified first-match invariant, z3", ref="6/C05"),
+ "C01": dict(
+  text="Deductive proof by event induction (rule R1) over the real GeminiServerProtocol: a class invariant (at most one response on the wire, well-formed: two-digit status 10-69, one space, META without CR/LF of at most 1024 bytes, CRLF, body only for 2x; response => closed; an open connection always has an armed timer or a pending completion; counters <= 1) is established by connection_made and preserved by data_received, the request timer, all four task-done callbacks and connection_lost, for every byte string, segmentation, handler value / exception / coroutine and middleware outcome; _encode_response and _send_response are proved for EVERY response value of the declared type (any int status, any str meta incl. surrogates, str/bytes/None body) and serialise a well-formed response byte for byte; no event lets an exception escape.",
+  note="Assumed: E1 asyncio dispatch (atomic callbacks, timers fire, done-callbacks run once), E2 transport contract (write appends unless closing, close may re-enter), E6 UTF-8 codec lemmas, handler/middleware interface types; from_line enters by contract (C08). Liveness ('eventually answers') is reduced to the invariant 'timer armed or completion pending' plus E1. The PyOpenSSL wrapper's conformance to E2 is C06.",
+  technique="contract-based deductive verification: class invariant + per-event Hoare triples generated by pyvc from the real methods; z3 + cvc5", ref="6/C01"),
+ "C04": dict(
+  text="Deductive proof that no request-handler or upload-handler call site in GeminiServerProtocol is reachable unless the chain is absent or its verdict for this very request was allow (ghost verdict, obligation at every call site, Gemini and Titan alike), that the chain is consulted once with request.normalized_url, the transport's peer address and the SHA-256 fingerprint of the certificate read from the transport, that a refusing or raising chain leads to the component's response / a 40 and never to a handler, and - for component lists of any length (inductive loop invariant) - that MiddlewareChain.process_request returns the FIRST rejecting component's pair without consulting later components and lets a component's exception propagate.",
+  note="Assumed: E1/E2 as for C01; components' outcomes arbitrary (uninterpreted); certificate parsing/fingerprint functions of the certificate (E12); chain wiring in start_server checked structurally on the AST (both TLS back ends). start_server passes no upload handler, so Titan is reachable only for embedders; the contracts are stated on the protocol class.",
+  technique="contract-based deductive verification: ghost verdict gate + loop invariant, pyvc VCs, z3", ref="6/C04"),
 }
 NA_REASON = "check not built yet (work in progress; see DESIGN.md section 6 for the plan)"
 
